@@ -56,7 +56,10 @@ Inductive instr :=
 
 Record func := mkfunc { fbody : list instr; finfo : list (nat * N) }.
 
-Inductive callee := CFn (f : func) | CNat (k : natk).
+(* what a call frame holds: a Scriggo function, a native function, or nothing
+   (callable{fn: vm.fn} with vm.fn nil: the frame runFunc pushes for a panic
+   raised by a deferred native function called while vm.fn is nil) *)
+Inductive callee := CFn (f : func) | CNat (k : natk) | CNone.
 
 Record frame := mkframe { fcl : callee; fpc : nat; fstat : status }.
 
@@ -168,28 +171,6 @@ Definition trim (s : state) : option state :=
   | _ :: r => Some (set_chain s (drop_ab r))
   end.
 
-(* a native function called by nextCall (a deferred native call); k is what follows *)
-Definition native_in_next (nk : natk) (s : state) (k : state -> sres) : sres :=
-  match nk with
-  | NBody n => k (emit s (EBody n))
-  | NStop e => Fin (OStop e) (EStop e :: str s)
-  | NFatal v => Fin (ORunPanics v) (EFatal v :: str s)
-  | NPanic v =>
-      (* convertPanic: with vm.fn nil it dereferences nil inside the deferred
-         function of runRecoverable; otherwise the instruction at pc-1 is the
-         Return and the value is wrapped in a fatalError *)
-      match sfn s with
-      | None => Fin OCrash (str s)
-      | Some _ => Fin (ORunPanics v) (str s)
-      end
-  end.
-
-(* the part of nextCall after its switch: `if i >= 0 { ... }` followed by the loop's i-- *)
-Definition after_switch (s : state) (call : frame) (i : nat) : sres :=
-  match fcl call with
-  | CFn f => Next (mkstate MExec (Some f) (fpc call) (firstn i (scalls s)) (schain s) (str s) (sraised s) (souter s))
-  | CNat nk => native_in_next nk s (fun s' => Next (set_mode s' (MNext i)))
-  end.
 
 (* nextCall, case panicked.  The pointer p walks along vm.panic: for every
    panicked or recovered frame that the search leaves behind,
@@ -237,6 +218,40 @@ Definition chain_split (c : list prec) : list prec * list prec :=
   match c with
   | [] => ([], [])
   | p :: r => ([p], r)
+  end.
+
+(* runFunc after runRecoverable returned a new PanicError: it is linked before
+   vm.panic; with no call frame left runFunc ends, otherwise a panicked frame
+   holding vm.fn is pushed, vm.fn becomes nil and nextCall goes on from it *)
+Definition raise_with (s : state) (owner : callee) (line : option N) (v : N) : sres :=
+  let p := mkprec v false false line (sraised s) in
+  let chain' := p :: schain s in
+  match scalls s with
+  | [] => end_panic s chain'
+  | _ =>
+      let calls' := scalls s ++ [mkframe owner 0 Panicked] in
+      Next (mkstate (MNext (length calls')) None (spc s) calls' chain' (str s) (N.succ (sraised s)) (souter s))
+  end.
+
+(* a native function called by nextCall (a deferred native call); k is what
+   follows.  A panic of the function is recovered by runRecoverable and
+   converted by convertPanic as the panic of a native call; newPanic gives it
+   no position (vm.fn is nil, or the instruction at vm.pc-1 is the Return) *)
+Definition native_in_next (nk : natk) (s : state) (k : state -> sres) : sres :=
+  match nk with
+  | NBody n => k (emit s (EBody n))
+  | NStop e => Fin (OStop e) (EStop e :: str s)
+  | NFatal v => Fin (ORunPanics v) (EFatal v :: str s)
+  | NPanic v => raise_with s (match sfn s with Some f => CFn f | None => CNone end) None v
+  end.
+
+(* the part of nextCall after its switch: `if i >= 0 { ... }` followed by the
+   loop's i--; vm.calls is cut at i before the callee runs *)
+Definition after_switch (s : state) (call : frame) (i : nat) : sres :=
+  match fcl call with
+  | CFn f => Next (mkstate MExec (Some f) (fpc call) (firstn i (scalls s)) (schain s) (str s) (sraised s) (souter s))
+  | CNat nk => native_in_next nk (set_calls s (firstn i (scalls s))) (fun s' => Next (set_mode s' (MNext i)))
+  | CNone => Fin OCrash (str s)      (* callNative of a nil native function *)
   end.
 
 Definition prev_deferred (c : list frame) (i : nat) : option (nat * frame) :=
@@ -353,22 +368,15 @@ Definition do_recover (s : state) (down : bool) : sres :=
   end.
 
 (* OpPanic, or a panic raised by a native function called with OpCallNative:
-   runRecoverable recovers it, convertPanic/newPanic build the PanicError,
-   runFunc links it and pushes a panicked frame.  pc0 is the address of the
-   instruction (vm.pc is pc0+1). *)
+   runRecoverable recovers it, convertPanic/newPanic build the PanicError with
+   the debug information of the instruction (when it has none, the one of the
+   following instruction).  pc0 is the address of the instruction (vm.pc is pc0+1). *)
 Definition raise (s : state) (f : func) (pc0 : nat) (v : N) : sres :=
   let line := match info_get (finfo f) pc0 with
               | Some l => Some l
               | None => info_get (finfo f) (S pc0)
               end in
-  let p := mkprec v false false line (sraised s) in
-  let chain' := p :: schain s in
-  match scalls s with
-  | [] => end_panic s chain'
-  | _ =>
-      let calls' := scalls s ++ [mkframe (CFn f) 0 Panicked] in
-      Next (mkstate (MNext (length calls')) None (spc s) calls' chain' (str s) (N.succ (sraised s)) (souter s))
-  end.
+  raise_with s (CFn f) line v.
 
 Definition fetch (f : func) (pc : nat) : option instr := nth_error (fbody f ++ [IReturn]) pc.
 
@@ -407,7 +415,7 @@ Definition step_exec (s : state) : sres :=
                       if status_eqb (fstat call) Started then
                         match fcl call with
                         | CFn g => Next (mkstate MExec (Some g) (fpc call) (firstn i (scalls s)) (schain s) (str s) (sraised s) (souter s))
-                        | CNat _ => Next (mkstate MExec None (fpc call) (firstn i (scalls s)) (schain s) (str s) (sraised s) (souter s))
+                        | CNat _ | CNone => Next (mkstate MExec None (fpc call) (firstn i (scalls s)) (schain s) (str s) (sraised s) (souter s))
                         end
                       else Next (set_mode s (MNext (S i)))
                   end
@@ -496,6 +504,7 @@ Fixpoint g_rundefers (rec : func -> bool -> bool -> gst -> gres) (by_panic : boo
                | CNat (NStop e) => GExit (OStop e) (EStop e :: gtr g)
                | CNat (NFatal v) => GExit (ORunPanics v) (EFatal v :: gtr g)
                | CNat (NPanic v) => GPanicking (gpush g v None)
+               | CNone => GNormal g      (* never deferred *)
                | CFn h => rec h panicking by_panic g
                end in
       match r with
